@@ -171,6 +171,18 @@ def run(ctx, replay=None):
                         seen.add(key)
                         tid += 7
                         jobs.append((tid, alg_, m_, n_, rk_, P_, q_, rk_, [ctx.seed * 100 + s_ for s_ in seeds[:2]]))
+    # wide inputs with a sketch wider than the number of ROWS (m < min(n, R + P)): the power iteration's left factor is not
+    # tall and goes through the routine's full-QR-and-slice branch
+    for (m_, n_, R_) in ((3, 6, 2), (2, 5, 1), (3, 7, 3)):
+        for P_ in (5, 10):
+            for q_ in (1, 2, 3):
+                for rk_ in (R_, min(m_, n_)):
+                    key = ("rand", m_, n_, R_, P_, q_, rk_)
+                    if key in seen:
+                        continue
+                    seen.add(key)
+                    tid += 7
+                    jobs.append((tid, "rand", m_, n_, R_, P_, q_, rk_, [ctx.seed * 100 + s_ for s_ in seeds[:2]]))
     recs = par.pmap(_cell, jobs)
     events, info = S.merge(recs)
     S.judge(ctx, events, info)
